@@ -195,16 +195,28 @@ def bounded(tier, seed, procs):
                 b.fail(Failure("coefficients", f"{'cause=affine-in-disguise ' if disguised and r[0] != 'val' else ''}affine={affine} targets={tn} expr={e!r} why={why}", dict(kind="coeff", expr=trees.src(e), targets=tn), expected="exact affine form or refusal",
                                actual=why, functions=["CoefficientCollector.map_sum", "map_product", "map_quotient", "map_power", "map_algebraic_leaf"]))
     # subscripted target variables
-    b_sub = BoundedRun("coefficients-subscripts", rule="subscripted variables as leaves (targets given as aggregate names and as None)", bound="6 expressions",
+    b_sub = BoundedRun("coefficients-subscripts", rule="subscripted variables as leaves (targets given as aggregate names and as None): affine inputs get coefficients; a target occurring inside the index of a subscript is not affine and must be refused", bound="14 expressions",
                        functions=["CoefficientCollector.map_algebraic_leaf"])
     a1 = p.Subscript(a, 1)
-    for e, tn in [(p.Sum((p.Product((2, a1)), 3)), ["a"]), (p.Sum((p.Product((2, a1)), x)), None), (a1, None), (p.Sum((a1, p.Subscript(a, 2))), ["a"]),
-                  (p.Product((3, p.Subscript(p.Variable("b"), x))), ["x"]), (p.Sum((p.Lookup(a, "f"), 1)), None)]:
+    bx = p.Subscript(p.Variable("b"), x)
+    affine_cases = [(p.Sum((p.Product((2, a1)), 3)), ["a"]), (p.Sum((p.Product((2, a1)), x)), None), (a1, None), (p.Sum((a1, p.Subscript(a, 2))), ["a"]),
+                    (p.Sum((p.Lookup(a, "f"), 1)), None), (p.Sum((p.Product((2, a1)), x)), ["x"]), (p.Product((a1, x)), ["x"])]
+    # a target inside the index of a subscript of another array: b[x] is not an affine function of x (whatever b is) - must be refused
+    nonaffine_cases = [(p.Product((3, bx)), ["x"]), (p.Sum((p.Product((2, p.Subscript(a, p.Sum((x, 1))))), x)), ["x"]), (bx, ["x"]), (p.Sum((p.Product((3, x)), p.Product((y, bx)), 7)), ["x"]),
+                       (p.Quotient(p.Sum((p.Subscript(a, p.Product((2, x))), x)), 2), ["x"]), (p.Sum((p.Subscript(p.Variable("b"), p.Sum((x, 2))), a1)), ["x", "y"]),
+                       (p.Product((p.Subscript(a, (x, 1)), 4)), ["x"])]
+    for e, tn in affine_cases:
         r = outcome.run(lambda: CoefficientCollector(tn)(e))
         b_sub.case((repr(e), repr(tn)), sample=dict(expr=repr(e), targets=tn))
         if r[0] != "val":
             b_sub.fail(Failure("coefficients-subscripts", f"targets={tn} expr={e!r} exc={r[1].__name__}", dict(kind="coeff-sub", expr=trees.src(e), targets=tn),
                                expected="coefficients", actual=outcome.describe(r), functions=["CoefficientCollector.map_algebraic_leaf"]))
+    for e, tn in nonaffine_cases:
+        r = outcome.run(lambda: CoefficientCollector(tn)(e))
+        b_sub.case((repr(e), repr(tn), "nonaffine"), sample=dict(expr=repr(e), targets=tn, affine=False))
+        if r[0] == "val":
+            b_sub.fail(Failure("coefficients-subscripts", f"what=target-in-subscript-index-accepted targets={tn} expr={e!r}", dict(kind="coeff-sub-na", expr=trees.src(e), targets=tn),
+                               expected="raises (not affine in the targets)", actual=outcome.describe(r)[:200], functions=["CoefficientCollector"]))
     # affine solver
     b2 = BoundedRun("affine-solver", rule="integer systems A u = B p + c with 1..3 unknowns, entries in {-2..2} (seeded sample of the full box), all row permutations, 0..2 parameters, "
                     "square and with one redundant equation, each also with every unknown, parameter and constant spread over both sides of its equation: accepted => every equation holds identically in the parameters after substituting the result (checked at 8 exact points; "
